@@ -123,6 +123,10 @@ def lin_failures(sp, dt, aseed):
             except Exception:
                 return out + ["(real-input-rejected)"]
         if yr.shape != yc.shape or not np.linalg.norm((yr - yc).astype(np.complex128)) <= 2e-4 * scale * max(np.linalg.norm(xr), 1e-30):
+            # single-precision comparison (fft casts real input to complex64): relative to the operands, not to a
+            # possibly cancelling result such as FFT - Reshape on a length-1 axis
+            scale = max(scale, LO.tree_opscale(sp, dt))
+        if yr.shape != yc.shape or not np.linalg.norm((yr - yc).astype(np.complex128)) <= 2e-4 * scale * max(np.linalg.norm(xr), 1e-30):
             out.append("real-input-differs-from-complex-cast")
         if not np.array_equal(xr, xr0):
             out.append("mutates-real-input")
